@@ -259,8 +259,8 @@ theorem inv_unjailValidator {s : State} (hi : Inv s) (h : Int) (a : Addr) : Inv 
       exact ⟨hi.keys a v hv, hi.nonneg a v hv, hi.bondedAll a v hv⟩
 
 /-- `handleMsgUnjail` -/
-theorem inv_handleUnjail {s : State} (hi : Inv s) (h t now : Int) (a signer : Addr) :
-    Inv (handleUnjail s h t now a signer).1 := by
+theorem inv_handleUnjail {s : State} (hi : Inv s) (h t : Int) (a signer : Addr) :
+    Inv (handleUnjail s h t a signer).1 := by
   unfold handleUnjail
   cases hv : aget s.vals a with
   | none => exact hi
@@ -278,9 +278,7 @@ theorem inv_handleUnjail {s : State} (hi : Inv s) (h t now : Int) (a signer : Ad
             simp only
             split
             · exact hi
-            · split
-              · exact hi
-              · exact inv_unjailValidator hi _ _
+            · exact inv_unjailValidator hi _ _
 
 theorem Inv.pool_nonneg {s : State} (hi : Inv s) : 0 ≤ s.pool := by
   rw [hi.pool]
@@ -304,7 +302,7 @@ theorem inv_step {s : State} (hi : Inv s) (op : Op) (hop : op.isPoolSend = false
   cases op with
   | stake h m signer => exact inv_handleStake hi h m signer
   | beginUnstake a signer => exact inv_handleBeginUnstake hi a signer
-  | unjail h t now a signer => exact inv_handleUnjail hi h t now a signer
+  | unjail h t a signer => exact inv_handleUnjail hi h t a signer
   | burn a amount => exact inv_simpleSlash hi a amount
   | beginBlock h t votes evs => exact inv_beginBlock hi h t votes evs
   | endBlock h t => exact inv_endBlock hi h t
